@@ -214,7 +214,8 @@ def _shrink_worker(args):
         cands = getattr(prop, 'candidates', None)
         if cands is None:
             return bucket, case, remaining_atoms(case), 0
-        budget = int(os.environ.get('VERIF_SHRINK_CHECKS', '300'))
+        budget = int(os.environ.get('VERIF_SHRINK_CHECKS',
+                                    str(getattr(prop, 'SHRINK_CHECKS', 300))))
         best, checks = SH.shrink(case, cands, still_fails, max_checks=budget)
         return bucket, best, remaining_atoms(best), checks
     except BaseException:
